@@ -16,7 +16,12 @@ ASSUMPTIONS = ['the expected text is computed by an independent renderer written
                'file); the meaning of symbol / specials macros is read from the latex2text table (the agreement of that table '
                'with the encoder table is C08\'s obligation)',
                'fill_text is excluded, as in the property']
-PARTIAL = []
+PARTIAL = ['C03_tree_level is a theorem about the latex2text model on TREES recognised as core (Render.abstract); that the parser '
+           'produces such trees for every document of the core grammar (C03_end_to_end of DESIGN 6/C03) is not proved here '
+           '(parser builders; one composed instance: C03_doc_end_to_end)',
+           '\\frac, \\sqrt and \\item[..] (%-templates over macro arguments, the optional argument of \\item) are not '
+           'constructors of Render.core: covered by the correspondence and the Python renderer only',
+           'a formatting macro is core only with exactly one braced argument (\\textbf x with a bare token argument is not)']
 REFUTED = []
 CASE_TIMEOUT = 10.0
 TXT = 'abcdefghxyzABC0123456789.,;:'
